@@ -484,6 +484,8 @@ pub fn gen(tier: &str, rng: &mut Rng, out: &mut Vec<String>) {
         let variants = [good.clone(), uncompressed, String::from_utf8(flip).unwrap(), good[..good.len() - 1].to_string(), format!("{}1", good), good.replace('1', "l"), String::new(), "3QJmnh".into(), "1".into(),
             format!("{}\u{e9}", &good[..10]), encode_base58_checksum(&[prefix]), encode_base58_checksum(&[]), wif_of(prefix, &[0u8; 32]), wif_of(prefix, &[0xffu8; 32]), wif_of(prefix, &key[..31]), good.to_uppercase()];
         for v in variants.iter() { if rng.chance(1, 2) { out.push(format!("c18.wwif {}", thex(v))); } else { out.push(format!("c18.wif2b {}", thex(v))); } if rng.chance(1, 4) { out.push(format!("c18.a2pkh {}", thex(v))); } }
+        // every short prefix of a good WIF and short runs of leading '1's (the error paths of the text decoders)
+        if rng.chance(1, 4) { for k in 0..13usize { let v = if rng.chance(1, 3) { "1".repeat(k) } else { good[..k].to_string() }; out.push(format!("{} {}", *rng.pick(&["c18.wwif", "c18.wif2b", "c18.a2pkh"]), thex(&v))); } }
         // a spend of a P2PKH output of this key: sign through the wallet, then validate
         let sk = SigningKey::from_slice(&key).unwrap(); let pk = sk.verifying_key().to_sec1_bytes().to_vec();
         let lock = p2pkh_script(&hash160(&pk).0);
